@@ -51,6 +51,15 @@ FAMILIES = {
         gens=[("Gen_Parse", "Gen_Parse.cfg", "bfs", {"quick": dict(depth=1, consts={"ParseSet": '"small"', "NRandom": "20"}),
                                                    "thorough": dict(depth=1, consts={"ParseSet": '"full"', "NRandom": "400"})})],
         replays=[dict(mode="app", controls="", swap=False)]),
+    "IDENT": dict(
+        mc=("MC_Ident", "MC_Ident.cfg", {"quick": {"IdentSet": '"small"'}, "thorough": {"IdentSet": '"full"'}}),
+        gens=[("Gen_Ident", "Gen_Ident.cfg", "bfs", {"quick": dict(depth=2, consts={"IdentSet": '"small"'}),
+                                                   "thorough": dict(depth=2, consts={"IdentSet": '"full"'})})],
+        replays=[dict(mode="app", controls="", swap=False)]),
+    "GENESIS": dict(
+        mc=("MC_Genesis", "MC_Genesis.cfg", {"quick": {"MaxDepth": "1"}, "thorough": {"MaxDepth": "2"}}),
+        gens=[("Gen_Genesis", "Gen_Genesis.cfg", "bfs", {"quick": dict(depth=1, consts={}), "thorough": dict(depth=1, consts={})})],
+        replays=[dict(mode="app", controls="nopause", swap=False, extra=[])]),
     "FEES": dict(
         mc=("MC_Fees", "MC_Fees.cfg", {"quick": {"FeeSet": '"small"'}, "thorough": {"FeeSet": '"full"'}}),
         shards={"quick": [{"Amounts": "{%d}" % a} for a in (1, 3, 10000, 10001, 199999)],
@@ -76,6 +85,10 @@ PROPS = {
                 rule="non-trivial = a packet whose payload carries actions (executed with recording decorators around the fee controller and the swap test controller) or repeats an action id; distinct = distinct (pre-state, input)"),
     "C14": dict(families=["PARSE"], groups=["ack"], level="exploration",
                 rule="TLC enumerates the finite grid templates x JSON paths x mutations completely; unstructured classes (random bytes as packet data, random memo bytes, random JSON under the real field names, extreme amounts/denoms/attribute values) are seeded-random representatives; each is one packet through the full app under recover(); non-trivial = every such packet; distinct = distinct abstract input"),
+    "C20": dict(families=["IDENT"], groups=["ident"], level="model_checking", exhaustive=True,
+                rule="one evaluation = one (protocol, counterparty string) pair sent through every identifier entry point; the evidence counts steps (batches of all strings per protocol and pre-state); non-trivial = every batch; distinct = distinct (pre-state, protocol)"),
+    "C17": dict(families=["GENESIS", "PAUSE"], groups=["genesis", "pause", "params", "stats"], level="model_checking", props=["C17", "C17b"],
+                rule="non-trivial = a genesis document accepted by validation (must initialise), or a re-import step inside a history (export -> validate -> init on a cleared store -> export must be the identity); distinct = distinct (pre-state, input)"),
     "C04": dict(families=["FEES"], groups=["ack", "bal"], level="model_checking", exhaustive=True,
                 rule="every grid point (amount x fee-entry list) is one packet through the real application; non-trivial = the payload carries a fee action that parses; distinct = distinct abstract input"),
     "C05": dict(families=["REQ"], groups=["ack", "req"], level="model_checking", exhaustive=True,
@@ -170,12 +183,13 @@ def attribute(prop, recs, evs, behs_by_id, wd, specdir, report):
     integ = [r for r in recs if r["integ"]]
     if integ:
         raise Machinery("trace integrity failure (harness bug): %s" % integ[:3])
-    viol = [r for r in recs if prop in r["viol"]]
-    ante = [r for r in recs if prop in r["ante"]]
+    pids = set(P.get("props", [prop]))
+    viol = [r for r in recs if pids & set(r["viol"])]
+    ante = [r for r in recs if pids & set(r["ante"])]
     report["evaluations"] += len(recs)
     report["nontrivial_keys"].update(ev_key(evs[r["k"] - 1]) for r in ante)
     # accepted behaviours: no divergence in the groups reported with this property, no violation
-    bad_b = set(r["b"] for r in recs if prop in r["viol"] or set(r["mism"]) & set(P["groups"]))
+    bad_b = set(r["b"] for r in recs if pids & set(r["viol"]) or set(r["mism"]) & set(P["groups"]))
     allb = set(r["b"] for r in recs)
     report["traces_validated"] += len(allb - bad_b)
     # conformance notes
@@ -192,7 +206,7 @@ def attribute(prop, recs, evs, behs_by_id, wd, specdir, report):
     other = {}
     for r in recs:
         for c in r["viol"]:
-            if c != prop:
+            if c not in pids:
                 other[c] = other.get(c, 0) + 1
     if other:
         log("note: other properties violated on observed steps of this run (decided by their own checks): %s" % other)
@@ -250,7 +264,7 @@ def do_replay(path, quiet=False):
         trace, _ = replay([rp["behaviour"]], wd, "replay", mode=rp["mode"], controls=rp["controls"], extra=rp.get("extra"))
         recs, evs, _ = validate(specdir, trace, rp.get("swap", False), parallel=1)
         last = recs[-1]
-        hit = rp["property"] in last["viol"]
+        hit = bool(set(PROPS.get(rp["property"], {}).get("props", [rp["property"]])) & set(last["viol"]))
         if not quiet:
             ev = evs[-1]
             log("replay of %s: step %d: %s" % (path, last["i"], in_summary(ev["in"])))
@@ -285,7 +299,7 @@ def check(prop, tier):
         # samples: a few actual non-trivial observed steps
         k = 0
         for r in recs:
-            if prop in r["ante"] and k < 3:
+            if set(PROPS[prop].get("props", [prop])) & set(r["ante"]) and k < 3:
                 ev = evs[r["k"] - 1]
                 samples.append(dict(behaviour=r["b"], step=r["i"], input=in_summary(ev["in"]), concrete=ev.get("concrete"),
                                     ack=ev["res"]["ack"], spec_branch=r["why"] or "success"))
@@ -310,6 +324,8 @@ def check(prop, tier):
     for path, r, e in all_viol:
         log("VIOLATION property=%s replay=%s" % (prop, path))
         log("  at %s step %d: %s -> %s" % (r["b"], r["i"], in_summary(e["in"]), e["res"]["ack"]))
+        if r.get("detail"):
+            log("  entries departing from the specification: %s" % json.dumps(r["detail"])[:1500])
     log("%s %s: %d observed steps evaluated, %d distinct non-trivial, %d behaviours accepted, %d new violations, %.0fs" % (
         prop, tier, report["evaluations"], nontriv, report["traces_validated"], len(all_viol), time.time() - t0))
     if tier == "quick" and not os.environ.get("VERIF_KEEP"):
